@@ -196,7 +196,8 @@ func TestC16(t *testing.T) {
 	// UpdateSubscription: masks x values
 	allPaths := []string{"labels", "expiration_policy", "message_retention_duration", "enable_message_ordering", "retry_policy", "push_config", "filter", "dead_letter_policy"}
 	var masks [][]string
-	masks = append(masks, nil, []string{"name"}, []string{"topic"}, []string{"foo"}, []string{"ack_deadline_seconds"}, []string{"labels", "labels"}, []string{"labels", "foo"}, allPaths)
+	masks = append(masks, nil, []string{"name"}, []string{"topic"}, []string{"foo"}, []string{"ack_deadline_seconds"}, []string{"labels", "labels"}, []string{"labels", "foo"}, allPaths,
+		[]string{"retry_policy.minimum_backoff"}, []string{"dead_letter_policy.max_delivery_attempts"}, []string{"push_config.push_endpoint"}, []string{"labels.k"}, []string{"."})
 	for _, p := range allPaths {
 		masks = append(masks, []string{p})
 	}
@@ -897,6 +898,13 @@ func TestC17(t *testing.T) {
 			}
 			upd := randSub(name)
 			reqs = append(reqs, Rpc{Kind: "updateSub", Has: true, Paths: mask, Sub: upd}, Rpc{Kind: "getSub", Name: name})
+			if r.Intn(4) == 0 {
+				// a mask that addresses a property inside a policy: not one of the paths the server updates;
+				// whatever it answers, the sibling properties of that policy keep their values
+				nested := []string{"retry_policy.minimum_backoff", "retry_policy.maximum_backoff", "dead_letter_policy.max_delivery_attempts", "dead_letter_policy.dead_letter_topic",
+					"push_config.push_endpoint", "expiration_policy.ttl", "labels.k"}[r.Intn(7)]
+				reqs = append(reqs, Rpc{Kind: "updateSub", Has: true, Paths: []string{nested}, Sub: randSub(name)}, Rpc{Kind: "getSub", Name: name})
+			}
 		}
 		if i%10 == 9 {
 			reqs = append(reqs, Rpc{Kind: "listSubs", Project: "projects/p", Size: 100}, Rpc{Kind: "advance", Adv: time.Second})
